@@ -85,6 +85,26 @@ func apply(e *tabula.Extractor, calls []selCall) *tabula.Extractor {
 	return e
 }
 
+// viaOf names the operation a history step uses (histories without the dimension use Text and PageCount)
+func viaOf(kind string) string {
+	if kind == "-" {
+		return ""
+	}
+	return kind
+}
+
+// onlyOwnDerivations: no extractor other than e's ancestors was derived before this step, so a wrong page list cannot
+// come from sharing between siblings - the operation itself selected the wrong pages
+func onlyOwnDerivations(log []lifeOp, e int) bool {
+	n := 1
+	for _, op := range log {
+		if op.Op == "derive" {
+			n++
+		}
+	}
+	return n <= 2
+}
+
 var emptyMu sync.Mutex
 var emptyClass string
 var emptyFirst string
@@ -422,18 +442,18 @@ func c10Life(i int, raw []byte) Result {
 					exts = append(exts, e.ByColumn())
 				}
 			case "pagecount":
-				n, err := e.PageCount()
+				n, err := runNonTerminal(e, viaOf(op.Kind))
 				if err != nil {
 					got = "error: " + err.Error()
-				} else if n != 6 {
+				} else if n >= 0 && n != 6 {
 					got = fmt.Sprintf("wrong page count %d", n)
 				}
 			case "text":
-				s, _, err := e.Text()
+				o, err := runTerminal(e, viaOf(op.Kind))
 				if err != nil {
 					got = "error: " + err.Error()
-				} else if fmt.Sprint(tokensOf(s)) != fmt.Sprint(op.Pages) {
-					got = fmt.Sprintf("wrong pages %v, the extractor's own selection is %v", tokensOf(s), op.Pages)
+				} else if toks := tokensOf(o.Text); (o.Complete && fmt.Sprint(toks) != fmt.Sprint(op.Pages)) || (!o.Complete && !isSubsequenceInts(toks, op.Pages)) {
+					got = fmt.Sprintf("wrong pages %v, the extractor's own selection is %v", toks, op.Pages)
 					wrongPages = true
 				}
 			case "close":
@@ -449,7 +469,10 @@ func c10Life(i int, raw []byte) Result {
 		}
 		events = append(events, Event{"event": op.Op, "e": op.E, "kind": op.Kind, "res": classify(got), "pages": pagesSeen, "open": open})
 		if wrongPages {
-			return mk("life-selection-changed", fmt.Sprintf("Text() of extractor %d returned %s: a derivation from a shared base changed this extractor's selection", op.E, got), k)
+			if len(c.Log) > 0 && onlyOwnDerivations(c.Log[:k], op.E) {
+				return mk("select-via:"+viaOf(op.Kind), fmt.Sprintf("%s of extractor %d returned %s", viaOf(op.Kind), op.E, got), k)
+			}
+			return mk("life-selection-changed", fmt.Sprintf("%s of extractor %d returned %s: a derivation from a shared base changed this extractor's selection", viaOf(op.Kind), op.E, got), k)
 		}
 		want := op.Res
 		if classify(got) == "panic" {
@@ -548,15 +571,26 @@ func c10LifeFmt(i int, raw []byte) Result {
 				case "derive":
 					exts = append(exts, e.ExcludeHeaders())
 				case "pagecount":
-					if _, err := e.PageCount(); err != nil {
+					// IsCharacterLevel / IsMultiColumn are defined for PDF only: elsewhere they may refuse, but never keep more than the handle
+					if _, err := runNonTerminal(e, viaOf(op.Kind)); err != nil && viaOf(op.Kind) == "" {
 						got = "error: " + err.Error()
 					}
 				case "text":
-					s, _, err := e.Text()
-					if err != nil {
-						got = "error: " + err.Error()
-					} else if !strings.Contains(s, c20Token) {
-						got = "error: text lacks the content"
+					via := viaOf(op.Kind)
+					o, err := runTerminal(e, via)
+					switch via {
+					case "", "text", "markdown", "mdopts":
+						if err != nil {
+							got = "error: " + err.Error()
+						} else if !strings.Contains(o.Text, c20Token) {
+							got = "error: text lacks the content"
+						}
+					case "document", "chunks", "chunkscfg":
+						if err != nil {
+							got = "error: " + err.Error()
+						}
+					default:
+						// the layout operations are defined for PDF only: a refusal is fine, the handle accounting below still applies
 					}
 				case "close":
 					e.Close()
